@@ -187,6 +187,10 @@ def inline_call(caller_raw, b, helper_raw):
             nb["term"] = _term(ht, loff, boff, smap)
         caller_raw["blocks"].append(nb)
     blk["term"] = {"k": "goto", "t": boff, "line": t["line"], "exp": None, "inlined": helper_raw["path"]}
+    seeds = caller_raw.setdefault("thread_seeds", [])
+    seeds.append(loff)                       # the helper's return place
+    if not dest["p"]:
+        seeds.append(dest["l"])              # the call's destination
 
 
 def inlined_facts(facts, vocab=None):
@@ -222,6 +226,13 @@ def inlined_facts(facts, vocab=None):
                 changed = True
         if not changed:
             break
+    # separate the paths that the helpers' several returns merged (only in bodies that received an inlining)
+    for path in list(raws):
+        if any(b.get("term", {}).get("inlined") for b in raws[path]["blocks"]):
+            try:
+                raws[path] = thread_variants(raws[path])
+            except Exception:
+                pass
     # drop helpers that are no longer called directly or used as values
     cur = mir.Program(dict(facts, bodies=list(raws.values())))
     for hp in list(helpers):
@@ -254,3 +265,219 @@ def inlined_facts(facts, vocab=None):
                 raw["root"] = raws.get(owner, {}).get("root", owner) if raws.get(owner, {}).get("kind") == "closure" else owner
     facts2 = dict(facts, bodies=list(raws.values()))
     return facts2, info
+
+
+# ---------------------------------------------------------------------------------------------------------------
+# variant threading: separate the paths that a helper's several `return`s merged
+
+MAX_NODES = 6000
+# calls whose result variant is a function of the variant of their first argument
+TRANSFER = {"Try::branch": "branch", "Option::ok_or": "to_result", "Option::ok_or_else": "to_result", "Result::ok": "to_option",
+            "Option::is_some": "is_good", "Result::is_ok": "is_good", "Option::is_none": "is_bad", "Result::is_err": "is_bad"}
+
+
+def _variant_of_agg(agg):
+    if agg.get("kind") == "adt" and "variant" in agg:
+        return agg["variant"]
+    return None
+
+
+def thread_variants(raw):
+    """State-product expansion of one body over facts `local -> known discriminant / small constant`.
+    A `switch` on `discriminant(l)` (or on a bool/int local) with a known value keeps only the feasible target; blocks are
+    duplicated per fact set, so paths that differ in the variant they returned stay apart (dominance and must-pass-through
+    rules then see what a path-sensitive reading sees). Returns a new raw body, or the input when nothing can be gained
+    or the expansion would exceed MAX_NODES."""
+    blocks = raw["blocks"]
+    # tracked locals: the return places / call destinations of inlined helpers and what they flow into by whole-value
+    # moves, Try::branch and discriminant reads (forward closure). Everything else keeps a single copy of its blocks.
+    relevant = set(raw.get("thread_seeds") or [])
+    if not relevant:
+        return raw
+    changed = True
+    while changed:
+        changed = False
+        for blk in blocks:
+            for st in blk["stmts"]:
+                if st["k"] != "assign" or st["place"]["p"] or st["place"]["l"] in relevant:
+                    continue
+                rv = st.get("rv", {})
+                src = None
+                if "use" in rv:
+                    src = mir.op_place(rv["use"])
+                elif "discr" in rv:
+                    src = rv["discr"]
+                if src is not None and not src["p"] and src["l"] in relevant:
+                    relevant.add(st["place"]["l"])
+                    changed = True
+            t = blk["term"]
+            if t["k"] == "call" and not t["dest"]["p"] and t["dest"]["l"] not in relevant and t["args"]:
+                fr = op_fn(t["func"])
+                p = mir.op_place(t["args"][0])
+                if fr and mir.tail2(fr["path"]) in TRANSFER and p is not None and not p["p"] and p["l"] in relevant:
+                    relevant.add(t["dest"]["l"])
+                    changed = True
+
+    def ty_kind(l):
+        ty = raw["locals"][l]["ty"]
+        if ty.startswith("core::option::Option<"):
+            return "option"
+        if ty.startswith("core::result::Result<"):
+            return "result"
+        return None
+
+    def step_stmt(st, facts):
+        if st["k"] != "assign":
+            return facts
+        pl = st["place"]
+        rv = st.get("rv", {})
+        # address taken mutably / partial write: forget
+        for key in ("ref", "rawptr"):
+            if key in rv and (rv.get("mut") or key == "rawptr") and rv[key]["l"] in facts:
+                facts = {k: v for k, v in facts.items() if k != rv[key]["l"]}
+        if pl["p"]:
+            if pl["l"] in facts and not any(isinstance(e, dict) and "f" in e for e in pl["p"][:0]):
+                # writing through a projection of a tracked local (e.g. a field of the payload) keeps the discriminant
+                # only when the first projection is a downcast/field of the same variant; be conservative: forget
+                facts = {k: v for k, v in facts.items() if k != pl["l"]}
+            return facts
+        l = pl["l"]
+        facts = {k: v for k, v in facts.items() if k != l}
+        if l not in relevant:
+            return facts
+        if "agg" in rv:
+            v = _variant_of_agg(rv["agg"])
+            if v is not None:
+                facts[l] = ("v", v)
+        elif "use" in rv:
+            op = rv["use"]
+            c = op.get("const") if isinstance(op, dict) else None
+            if c is not None and "val" in c:
+                facts[l] = ("c", c["val"])
+            else:
+                p = mir.op_place(op)
+                if p is not None and not p["p"] and p["l"] in facts:
+                    facts[l] = facts[p["l"]]
+        elif "discr" in rv:
+            src = rv["discr"]
+            if not src["p"] and src["l"] in facts and facts[src["l"]][0] == "v":
+                facts[l] = ("c", facts[src["l"]][1])
+        return facts
+
+    def key(facts):
+        return tuple(sorted(facts.items()))
+
+    nodes = {}
+    order = []
+    work = [(0, {})]
+    nodes[(0, key({}))] = 0
+    order.append((0, {}))
+    edges = {}
+    while work:
+        b, facts_in = work.pop()
+        nid = nodes[(b, key(facts_in))]
+        blk = blocks[b]
+        facts = dict(facts_in)
+        for st in blk["stmts"]:
+            facts = step_stmt(st, facts)
+        t = blk["term"]
+        succs = []     # (label, target block, facts)
+        k = t["k"]
+        if k == "goto":
+            succs.append(("t", t["t"], facts))
+        elif k == "switch":
+            p = mir.op_place(t["op"])
+            known = None
+            if p is not None and not p["p"] and p["l"] in facts:
+                known = facts[p["l"]][1]
+            if known is not None:
+                tgt = dict((v, bb) for v, bb in t["targets"]).get(known, t["otherwise"])
+                succs.append(("only", tgt, {}))      # resolved: forget, so the paths re-merge behind the decision
+            else:
+                for v, bb in t["targets"]:
+                    succs.append(("case", bb, dict(facts), v))
+                succs.append(("otherwise", t["otherwise"], facts))
+        elif k == "call":
+            f2 = dict(facts)
+            d = t["dest"]
+            # arguments passed by &mut may be changed by the callee
+            if not d["p"]:
+                f2.pop(d["l"], None)
+                fr = op_fn(t["func"])
+                if fr is not None and d["l"] in relevant and t["args"]:
+                    nm = mir.tail2(fr["path"])
+                    a0 = mir.op_place(t["args"][0])
+                    if nm in TRANSFER and a0 is not None and not a0["p"] and a0["l"] in facts and facts[a0["l"]][0] == "v":
+                        kind = ty_kind(a0["l"])
+                        v = facts[a0["l"]][1]
+                        good = (kind == "option" and v == 1) or (kind == "result" and v == 0)      # Some / Ok
+                        if kind in ("option", "result"):
+                            what = TRANSFER[nm]
+                            if what == "branch":
+                                f2[d["l"]] = ("v", 0 if good else 1)      # Continue(0) / Break(1)
+                            elif what == "to_result":
+                                f2[d["l"]] = ("v", 0 if good else 1)      # Ok(0) / Err(1)
+                            elif what == "to_option":
+                                f2[d["l"]] = ("v", 1 if good else 0)      # Some(1) / None(0)
+                            elif what == "is_good":
+                                f2[d["l"]] = ("c", 1 if good else 0)
+                            elif what == "is_bad":
+                                f2[d["l"]] = ("c", 0 if good else 1)
+                    elif nm == "FromResidual::from_residual":
+                        kind = ty_kind(d["l"])
+                        if kind == "option":
+                            f2[d["l"]] = ("v", 0)
+                        elif kind == "result":
+                            f2[d["l"]] = ("v", 1)
+            if t["t"] is not None:
+                succs.append(("t", t["t"], f2))
+        elif k in ("drop", "assert"):
+            f2 = dict(facts)
+            if k == "drop" and not t["place"]["p"]:
+                f2.pop(t["place"]["l"], None)
+            succs.append(("t", t["t"], f2))
+        outs = []
+        for s in succs:
+            tb, f2 = s[1], s[2]
+            f2 = {l: v for l, v in f2.items() if l in relevant}
+            kk = (tb, key(f2))
+            if kk not in nodes:
+                if len(nodes) >= MAX_NODES:
+                    return raw
+                nodes[kk] = len(nodes)
+                order.append((tb, f2))
+                work.append((tb, f2))
+            outs.append((s[0], nodes[kk]) + tuple(s[3:]))
+        edges[nid] = outs
+    if len(nodes) == len([b for b in range(len(blocks))]) and all(len(v) for v in [1]):
+        pass
+    # rebuild
+    new_blocks = []
+    for nid, (b, facts) in enumerate(order):
+        blk = blocks[b]
+        nb = {"cleanup": blk["cleanup"], "stmts": blk["stmts"], "orig": b}
+        if "file" in blk:
+            nb["file"] = blk["file"]
+        t = dict(blk["term"])
+        outs = edges.get(nid, [])
+        k = t["k"]
+        if k == "goto":
+            t["t"] = outs[0][1]
+        elif k == "switch":
+            if outs and outs[0][0] == "only":
+                t = {"k": "goto", "t": outs[0][1], "line": t["line"], "exp": t.get("exp"), "threaded": True}
+            else:
+                t["targets"] = [[o[2], o[1]] for o in outs if o[0] == "case"]
+                t["otherwise"] = [o[1] for o in outs if o[0] == "otherwise"][0]
+        elif k == "call":
+            t["t"] = outs[0][1] if outs else None
+            t["unwind"] = None
+        elif k in ("drop", "assert"):
+            t["t"] = outs[0][1]
+            t["unwind"] = None
+        nb["term"] = t
+        new_blocks.append(nb)
+    out = dict(raw)
+    out["blocks"] = new_blocks
+    out["threaded"] = {"nodes": len(new_blocks), "from": len(blocks)}
+    return out
